@@ -31,6 +31,10 @@ def unique_affinity(n):
 
 
 def _data(n, d=2):
+    if n > 12:        # continuous draws: rows distinct almost surely (checked), no minimal-gap requirement
+        X = np.random.RandomState(3000 + n).normal(size=(n, d))
+        assert len(np.unique(X, axis=0)) == n
+        return X
     X = seams.tiny_data(n, d, 3)
     return X
 
@@ -90,7 +94,7 @@ def run_case(case):
         if mode in ("refit_up", "refit_down"):
             # history: the same (possibly decorated) instance was first fitted on data of another size
             n0 = max(K, n - 2) if mode == "refit_up" else n + 2
-            X0 = seams.tiny_data(n0, 2, 4)
+            X0 = seams.tiny_data(n0, 2, 4) if n0 <= 12 else np.random.RandomState(3100 + n0).normal(size=(n0, 2))
             model.fit(X0, None if y is None else unique_affinity(n0))
             del spy.log[:]
             updates["n"] = 0
@@ -198,8 +202,24 @@ def explorers(tier, seed):
                     for decorated in (False, True):
                         for mode in ("refit_up", "refit_down"):
                             cases.append((family, n, bs, aff_mode, 2, decorated, (), mode))
+    # size axis: dozens to hundreds of samples, batch sizes around the powers of two and around n (default answers, and the reversed
+    # order / a rotation by one as scripted first answers)
+    for family in MODELS:
+        for n in (33, 130):
+            for bs in ([None] if family == "CategoricalModel" else [7, 32, 33, 64, n - 1, n, n + 1, None]):
+                for aff_mode in (["none"] if family == "KernelRIM" else ["none", "precomputed"] + (["computed"] if family == "LinearModel" else [])):
+                    for decorated in (False, True):
+                        cases.append((family, n, bs, aff_mode, 2, decorated, (), "fit"))
+                        cases.append((family, n, bs, aff_mode, 2, decorated, (tuple(range(n - 1, -1, -1)),), "fit"))
+                        cases.append((family, n, bs, aff_mode, 2, decorated, (tuple(list(range(1, n)) + [0]),), "fit"))
+            if family != "CategoricalModel":
+                for mode in ("refit_up", "refit_down"):
+                    cases.append((family, 33, 8, "none" if family == "KernelRIM" else "precomputed", 2, True, (), mode))
     pc = []
     for family in ("SparseLinearModel", "SparseMLPModel"):
+        for n, bs in ((40, 16), (40, None), (65, 32)):
+            for aff_mode in ("none", "precomputed"):
+                pc.append((family, n, bs, aff_mode, 2, False, (), "path"))
         for n in (4, 5):
             for bs in (1, 2, 3, None):
                 for aff_mode in ("none", "computed", "precomputed"):
@@ -212,7 +232,8 @@ def explorers(tier, seed):
                  rule="real fit of every batched model x n in 1..7 x batch_size in 1..n+2 and None x affinity {none, computed, user precomputed with "
                       "unique entries} x {plain, decorated}; choice points = answers of RandomState.permutation: default answers (bound 0), ALL n! "
                       f"answers for the first epoch for n<={nmax_all} (bound 1), all pairs for two epochs for n<=3 (bound 2); "
-                      "plus refits of the same (decorated) instance after a fit on smaller / larger data; "
+                      "plus refits of the same (decorated) instance after a fit on smaller / larger data; plus n in {33,130} with batch sizes 7,32,33,64,n-1,n,n+1 "
+                      "(default, reversed and rotated first answers); "
                       "non-trivial = configuration with >=2 batches and a partial last batch",
                  bound=f"deviation bound 2 completed for n<=3, bound 1 for n<={nmax_all}, bound 0 for n<=7"),
         Explorer("path_batches", "props.c10", "run_case", pc, kind="choices", chunk=8, floor=20,
